@@ -95,6 +95,23 @@ P: !protocol
     items: !stream
       items: Item
     optRec: Rec?
+    vecOptChanged: int32?*
+    vecOptToScalar: string?*
+    vecScalarToOpt: int32*
+    vecToUnion: int32*
+    vecFromUnion: IntOrStr*
+    streamOptChanged: !stream
+      items: int32?
+    streamFromUnion: !stream
+      items: [int32, string]
+    vecOfRecWithOpt: RecO*
+
+RecO: !record
+  fields:
+    o: int32?
+    u: [int32, string]
+
+IntOrStr: [int32, string]
 
 Shrink: !protocol
   sequence:
@@ -175,8 +192,25 @@ P: !protocol
     items: !stream
       items: Item
     optRec: Rec?
+    vecOptChanged: int64?*
+    vecOptToScalar: string*
+    vecScalarToOpt: int32?*
+    vecToUnion: IntOrStr*
+    vecFromUnion: int32*
+    streamOptChanged: !stream
+      items: int64?
+    streamFromUnion: !stream
+      items: int32
+    vecOfRecWithOpt: RecO*
     extraOptional: Plain?
     extraVector: int32*
+
+RecO: !record
+  fields:
+    o: int64?
+    u: int32
+
+IntOrStr: [int32, string]
 
 Shrink: !protocol
   sequence:
@@ -377,7 +411,10 @@ def run(ctx):
         ctx.case((what, p, stream), sample={"direction": what, "protocol": p, "bytes_in": len(stream), "bytes_out": len(out), "status": s})
         ctx.count("direction", what)
         ctx.count("status", str(s))
-        if s >= 100:
+        if s >= 1000:
+            ctx.report("%s:%s:step-%d-differs" % (what.split()[0], p, s - 1000), "%s of protocol %s: destination step %d does not hold the converted "
+                       "value" % (what, p, s - 1000), dict(rep0, direction=what, protocol=p, input_hex=stream.hex(), output_hex=out.hex(), stderr=err))
+        elif s >= 100:
             ctx.report("%s:%s:error-due-at-step-%d" % (what.split()[0], p, s - 100), "%s of protocol %s: the model has a runtime error (or no conversion) "
                        "at destination step %d but the translator produced a stream" % (what, p, s - 100),
                        dict(rep0, direction=what, protocol=p, input_hex=stream.hex(), output_hex=out.hex(), stderr=err))
